@@ -337,3 +337,268 @@ def report(ctx, scripts, rej, tag):
         ctx.violation(f"{d['x']} fail={json.dumps(d['fail'])} rejected at event {d['rel']} ({d['event']}): " + "; ".join(unknown[:4]) +
                       f"   event={json.dumps(d['first'])[:240]}", rp)
     return nviol
+
+
+# ----------------------------------------------------------------------------------------------------------
+# Design level: the transcription (VirtMemImpl) against the contract, negative controls, coverage, export
+# ----------------------------------------------------------------------------------------------------------
+MC_TMPL = """SPECIFICATION ISpec
+CONSTANTS
+  Grans = {{2, 4}}
+  DefGran = 2
+  MinBlock = 8
+  MaxBlock = 64
+  MaxOps = {ops}
+  MaxFaults = {faults}
+  Level = "{level}"
+  Bug = "{bug}"
+  EnvSet <- {envs}
+INVARIANTS {inv}
+"""
+ALL_INV = "Accepted CInv WXEnforced"
+BUG_ONLY_ACTIONS = {"RaNested"}
+
+
+def mc(ctx, tag, level, ops, faults, bug="none", envs="EnvsSome", inv=ALL_INV, workers=6, coverage=False, timeout=2400, simulate=None, depth=None):
+    cfg = ctx.path(f"mc_{tag}.cfg")
+    open(cfg, "w").write(MC_TMPL.format(ops=ops, faults=faults, level=level, bug=bug, envs=envs, inv=inv))
+    return vlib.run_tlc(ctx, MOD_MC, cfg, workers=workers, timeout=timeout, heap="6g", tag=tag, coverage=coverage, simulate=simulate, depth=depth,
+                        seed=ctx.seed if simulate else None)
+
+
+def actions_taken(out):
+    """-> {action: taken?} from TLC -coverage output"""
+    res = {}
+    for m in re.finditer(r"^<(\w+) line \d+, col \d+ to line \d+, col \d+ of module VirtMemImpl>: (\d+):(\d+)", out, re.M):
+        res[m.group(1)] = res.get(m.group(1), False) or int(m.group(3)) > 0
+    return res
+
+
+def design(ctx):
+    """-> behaviours [(level, [env, hist, faults])] exported by the exhaustive runs"""
+    import concurrent.futures
+    q = ctx.quick
+    taken = {}
+    behs = []
+    runs = [("vm", "vm", 2, 1, "EnvsSome" if q else "EnvsAll"), ("rt", "rt", 3 if q else 4, 1, "EnvsSome")]
+    if not q:
+        runs.append(("vm2f", "vm", 2, 2, "EnvsSome"))
+    negs = [("leakFirstView", "vm", 2), ("noUnlink", "vm", 2), ("leakOnMallocFail", "rt", 3), ("noFallback", "rt", 3), ("relocRw", "rt", 3),
+            ("keepEmpty", "rt", 3), ("noFlush", "rt", 3), ("nestedScope", "rt", 3)]
+    if q:
+        negs = [n for n in negs if n[0] in ("leakFirstView", "leakOnMallocFail", "relocRw", "nestedScope")]
+    with concurrent.futures.ThreadPoolExecutor(max_workers=6) as ex:
+        fd = {tag: ex.submit(mc, ctx, f"design_{tag}", level, ops, faults, "none", envs, ALL_INV + " Export", 5, True) for tag, level, ops, faults, envs in runs}
+        fn = {bug: ex.submit(mc, ctx, f"neg_{bug}", level, ops, 1, bug, "EnvsSome", ALL_INV, 2, False, 900) for bug, level, ops in negs}
+        for tag, level, ops, faults, envs in runs:
+            r = fd[tag].result()
+            vlib.tlc_must_ok(ctx, r, f"design {tag} (VirtMemImpl against the contract, every fault position, {envs})")
+            behs += [(level, b) for b in vlib.parse_beh(r.out)]
+            ctx.log(f"design {tag}: {r.distinct} distinct states, Accepted + CInv + WXEnforced hold (MaxOps={ops}, <={faults} injected failure(s), {envs})")
+            ctx.extra[f"design_{tag}_states"] = r.distinct
+            for a, t in actions_taken(r.out).items():
+                taken[a] = taken.get(a, False) or t
+        never = sorted(a for a, t in taken.items() if not t and a not in BUG_ONLY_ACTIONS)
+        if never or len(taken) < 60:
+            raise Broken(f"coverage: actions never taken: {never} (actions seen: {len(taken)})")
+        ctx.log(f"coverage: all {len(taken) - len(BUG_ONLY_ACTIONS & set(taken))} actions of the transcription taken")
+        # negative controls: the seeded slips must be rejected by the contract
+        for bug, level, ops in negs:
+            r = fn[bug].result()
+            if r.kind != "violation" or r.violated not in ("Accepted", "CInv"):
+                raise Broken(f"negative control '{bug}' was not rejected (kind={r.kind} violated={r.violated})")
+    ctx.log(f"{len(negs)} negative controls rejected: " + ", ".join(n[0] for n in negs))
+    return behs
+
+
+def model_scripts(ctx, quick, behs):
+    """behaviours of the transcription -> scripts for the real code"""
+    rng = random.Random(ctx.seed)
+    behs = list(behs)
+    if not quick:
+        r = mc(ctx, "sim_rt", "rt", 6, 2, inv="Export", envs="EnvsAll", simulate=3000, depth=400, workers=4)
+        if r.kind != "ok":
+            raise Broken("simulation export failed: " + r.out[-800:])
+        behs += [("rt", b) for b in vlib.parse_beh(r.out)]
+    total = len(behs)
+    uniq = {}
+    for lvl, b in behs:
+        if b[1]:
+            uniq[json.dumps(b)] = (lvl, b)
+    behs = [uniq[k] for k in sorted(uniq)]
+    # complete behaviours first (longest histories), those with an injected failure preferred
+    full = [x for x in behs if len(x[1][1]) >= (2 if x[0] == "vm" else 3)]
+    rng.shuffle(full)
+    want = 500 if quick else 5000
+    pick = full[:want]
+    scripts = []
+    for i, (lvl, (envt, hist, fk)) in enumerate(pick):
+        env = {"memfd": envt[0], "shmexec": envt[1], "rwx": envt[2], "hugesim": envt[3], "lpfile": envt[4]}
+        ops = []
+        for op in hist:
+            k = op[0]
+            if k == "alloc":
+                n = LP if op[3] else op[1] * 1024
+                ops.append(A(n, op[2], op[4], huge=op[3]))
+            elif k == "dual":
+                ops.append(D(op[1] * 1024, op[2], op[4], tmp=op[3]))
+            elif k == "release":
+                ops.append(REL(op[1]))
+            elif k == "reldual":
+                ops.append(RD(op[1]))
+            elif k == "protect":
+                ops.append(PROT(op[1], op[2], 0, PAGE))
+            elif k in ("hri", "lps"):
+                ops.append({"op": k})
+            elif k == "rt_new":
+                ops.append(RTNEW(dual=op[1], fill=op[2], imm=op[3], lp=op[4], alignlp=op[4]))
+            elif k == "rt_add":
+                ops.append(ADD(op[2], -1 if op[1] == 0 else (1 if op[1] == 2 else 7), 100 + i % 800, 0 if op[1] <= 2 else 50000))
+            elif k == "rt_release":
+                ops.append(RREL(op[1]))
+            elif k == "rt_reset":
+                ops.append(RESET_H if op[1] else RESET_S)
+            elif k == "rt_del":
+                ops.append(DEL)
+            else:
+                raise Broken(f"unknown model op {op}")
+        scripts.append({"x": f"beh{i}/{lvl}", "env": env, "fail": [[f[0], f[1], f[2]] for f in fk], "ops": ops})
+    return total, len(behs), scripts
+
+
+# ----------------------------------------------------------------------------------------------------------
+# Negative controls of the trace specification (non-vacuity): these executions MUST be rejected
+# ----------------------------------------------------------------------------------------------------------
+def trace_negative_controls(ctx, bdir):
+    # (a) real code, misused by the driver: a ProtectJitReadWriteScope opened inside an open one
+    nested = {"x": "neg_nested/std", "env": {}, "fail": [], "ops": [A(8192, 7, 0), {"op": "scope", "s": 0, "policy": 0}, {"op": "scope", "s": 0, "policy": 0},
+                                                                 {"op": "unscope"}, {"op": "unscope"}, REL(0)]}
+    good = {"x": "neg_base/std", "env": {}, "fail": [], "ops": [D(65536, 7, 0), A(8192, 3, 1), RD(0), REL(1), RTNEW(dual=True), ADD(0, 7, 5, 100), RREL(0), DEL]}
+    sp, raw = ctx.path("negctl_scripts.ndjson"), ctx.path("negctl_raw.ndjson")
+    vlib.write_ndjson(sp, [nested, good])
+    os.makedirs(ctx.path("negctl_tmp"), exist_ok=True)
+    vlib.record_trace(ctx, bdir, "virtmem", ["run", sp, raw], raw, timeout=120, env={"TMPDIR": ctx.path("negctl_tmp")})
+    recs = vlib.read_ndjson(raw)
+    execs = vlib.split_executions(recs)
+    if len(execs) != 2:
+        raise Broken("negative controls: expected two executions")
+    base = execs[1]
+
+    def mutate(name, fn):
+        out, done = [], False
+        for r in base:
+            r2 = fn(dict(r), done)
+            if r2 is None:
+                done = True
+                continue
+            if r2 is not r and r2 != r:
+                done = True
+            out.append(r2)
+        if not done:
+            raise Broken(f"negative control {name}: nothing to corrupt")
+        out[0] = dict(out[0], x=f"neg_{name}/std")
+        return out
+    variants = [execs[0], [dict(base[0], x="neg_none/std")] + base[1:]]
+    # (b) a recorded execution with one event removed / one field changed
+    variants.append(mutate("lost_munmap", lambda r, d: None if (not d and r.get("fn") == "munmap" and r.get("n") == 65536) else r))
+    variants.append(mutate("lost_close", lambda r, d: None if (not d and r.get("fn") == "close") else r))
+    variants.append(mutate("wrong_base", lambda r, d: dict(r, base=r["qrw"]) if (r.get("e") == "RtRet" and r.get("api") == "add") else r))
+    variants.append(mutate("wrong_prot", lambda r, d: dict(r, prot=7) if (not d and r.get("fn") == "mmap" and r.get("prot") == 5 and r.get("n") == 65536) else r))
+    variants.append(mutate("no_flush", lambda r, d: None if (r.get("e") == "Flush" and r.get("n", 0) < 4096) else r))
+    variants.append(mutate("crash", lambda r, d: {"e": "ABORT", "why": "signal 11"} if (not d and r.get("e") == "VmRet" and r.get("api") == "dual") else r))
+    norm = ctx.path("negctl_norm.ndjson")
+    res = []
+    for v in variants:
+        res += compress_execution(v)
+    vlib.write_ndjson(norm, res)
+    n, rej = validate(ctx, norm, "negctl", timeout=300)
+    rejected = {d["x"] for d in rej}
+    want = {"neg_nested/std", "neg_lost_munmap/std", "neg_lost_close/std", "neg_wrong_base/std", "neg_wrong_prot/std", "neg_no_flush/std", "neg_crash/std"}
+    if rejected != want:
+        raise Broken(f"trace-specification negative controls: rejected {sorted(rejected)}, expected {sorted(want)}")
+    ctx.log(f"trace specification: {len(want)} corrupted / misused executions rejected, the unmodified one accepted")
+
+
+def run(ctx):
+    import concurrent.futures
+    q = ctx.quick
+    bdir = ctx.build("asan", "virtmem")
+    # 1. design
+    behs = design(ctx)
+    # 2. non-vacuity of the trace specification
+    trace_negative_controls(ctx, bdir)
+    # 3. scenarios: systematic (every fault position), model behaviours, random
+    sysx = systematic_scripts(q)
+    if not q:
+        sysx += [dict(s, x=s["x"].replace("/", "+sticky/"), sticky=True, errnos="first") for s in sysx]
+    total_beh, uniq_beh, behx = model_scripts(ctx, q, behs)
+    rndx = random_scripts(ctx.seed, 300 if q else 4000)
+    nshard = 4 if q else 6
+    jobs = []
+    sysx_sorted = sorted(sysx, key=lambda s: -len(s["ops"]))
+    for i in range(nshard):
+        jobs.append((f"sys{i}", sysx_sorted[i::nshard]))
+    jobs.append(("beh", behx))
+    nr = 1 if q else 4
+    for i in range(nr):
+        jobs.append((f"rnd{i}", rndx[i::nr]))
+    results = {}
+    with concurrent.futures.ThreadPoolExecutor(max_workers=5) as ex:
+        futs = {ex.submit(record_and_validate, ctx, bdir, scripts, tag, 2400 if q else 5000): (tag, scripts) for tag, scripts in jobs}
+        for f in concurrent.futures.as_completed(futs):
+            tag, scripts = futs[f]
+            results[tag] = (scripts, f.result())
+    nexec = nev = 0
+    outcomes = {}
+    leftovers = []
+    for tag, (scripts, (n, recs, rej, left)) in sorted(results.items()):
+        nexec += n
+        nev += len(recs)
+        leftovers += left
+        x = None
+        plan = ()
+        for r in recs:
+            if r.get("e") == "Reset":
+                x, plan = r.get("x", "?").split("/")[0], json.dumps(r.get("fail", []))
+                ctx.distinct.add((r.get("x"), plan, r.get("sticky", False)))
+            elif r.get("e") in ("VmRet", "RtRet"):
+                k = (r["e"], r["api"], r["r"])
+                outcomes[k] = outcomes.get(k, 0) + 1
+        nv = report(ctx, scripts, rej, tag)
+        ctx.log(f"{tag}: {n} executions, {len(recs)} events, {len(rej)} rejected executions ({nv} not known)")
+        for d in rej[:1]:
+            ctx.add_sample({"source": tag, "x": d["x"], "fail": d["fail"], "rejected": d["reasons"][:2]})
+    if leftovers:
+        # independent of the specification: files the component left behind in its tmp directory
+        ctx.violation(f"files left in TMPDIR after the runs: {leftovers[:5]}", ctx.path("sys0_scripts.ndjson"))
+    ctx.traces = nexec - len([1 for v in ctx.violations])
+    ctx.evaluations = nev
+    ctx.extra["executions"] = nexec
+    ctx.extra["api_outcomes"] = {f"{k[0]}:{k[1]}:{k[2]}": v for k, v in sorted(outcomes.items())}
+    ctx.extra["model_behaviours_exported"] = total_beh
+    ctx.extra["model_behaviours_replayed"] = len(behx)
+    ctx.add_sample({"source": "scenario", "example": sysx[0]["x"], "ops": sysx[0]["ops"][:4]})
+    ctx.assumptions += [
+        "Linux/x86-64 branch of virtmem.cpp only (the Windows, Apple MAP_JIT / mach_vm_remap and NetBSD MAP_REMAPDUP branches are not compiled here)",
+        "OS requests are seen through link-time interposition (--wrap) of the libc entry points virtmem.cpp/osutils.cpp/jitallocator.cpp reference; "
+        "a request issued through another entry point would be invisible - the End event cross-checks with /proc/self/fd and /proc/self/maps",
+        "environments without memfd_create, with noexec /dev/shm, with W^X enforcement and with huge pages are simulated inside the interposition layer",
+        "addresses are compressed per execution (order, adjacency and all distances inside mentioned ranges preserved) by checks/x01.py",
+        "munmap failures are injected only into release / release_dual_mapping called by the driver (the allocator cannot react to a failing munmap)",
+        "ASan/UBSan build is the environment; a crash / sanitizer report / timeout of the traced process becomes an ABORT line that no action consumes",
+    ]
+    vlib.write_evidence(ctx, "model_checking",
+        rule="events = Os/Vm/Rt/Jit/Flush events recorded from executions of the real code, each judged by the contract VirtMem.tla; "
+             "distinct = distinct (scenario, fault plan) executions; scenarios = hand-written life cycles x simulated environments x EVERY fault position "
+             "(x errno), behaviours exported by TLC from the transcription VirtMemImpl, seeded random scripts with random fault plans",
+        trusted_base=["TLC 1.8.0", "spec/vm/VirtMem.tla (contract)", "harness/virtmem.cpp interposition layer + observations (/proc/self/maps, use of the memory, "
+                      "reference image)", "checks/x01.py address compression"])
+
+
+def replay(ctx, path):
+    """path: a scenario file (one script per line, explicit fault plan) written by a previous run"""
+    bdir = ctx.build("asan", "virtmem")
+    scripts = vlib.read_ndjson(path)
+    n, recs, rej, left = record_and_validate(ctx, bdir, scripts, "replay", 900)
+    nv = report(ctx, scripts, rej, "replay")
+    ctx.log(f"replay: {n} executions, {len(rej)} rejected, {nv} not known")
